@@ -341,11 +341,15 @@ def units(tier, seed):
     for kind, em, route in ([('cogen-parallel', 2, 'correlations'), ('cogen-topping', 3, 'correlations-itc')] if tier == 'quick' else
                             [(k, em, 'correlations-itc') for k in ('cogen-topping', 'cogen-bottoming', 'cogen-parallel', 'electricity', 'direct-use') for em in (1, 2, 3)]):
         us.append({'harness': 'econ', 'kind': kind, 'em': em, 'route': route})
+    us.append({'harness': 'factor-sync'})       # which adjustment factor scales the injection wells' correlation cost
     return us
 
 
 def run_unit(unit):
     h = unit['harness']
+    if h == 'factor-sync':
+        yield from c03.run_factor_sync(unit)
+        return
     yield from {'walk': run_walk, 'tdp': run_tdp, 'wellcost': run_wellcost, 'econ': run_econ}[h](unit)
 
 
